@@ -498,7 +498,15 @@ func scenario(r *rand.Rand, i, nq int) (Rec, error) {
 		f := verzoo.Random(r)
 		var vs []*version
 		var fs []verzoo.Feat
+		enumTriple := nv == 3 && r.Intn(3) == 0
 		for j := 0; j < nv; j++ {
+			if enumTriple {
+				f.Kind = []int{2, 1, 3}[j]
+				if f.Item != 0 {
+					f.KindA = 1
+				}
+				f = f.Consistent()
+			}
 			v, err := build(f)
 			if err != nil {
 				return rec, err
